@@ -6,6 +6,7 @@
    N is an arbitrary natural number in every theorem. *)
 From Coq Require Import ZArith Bool List.
 From TF Require Import Word BFieldGen U32sGen U32s U32sSpec U32sProofs U32sTryFromNow.
+From TF Require BFieldProofs.
 Import ListNotations.
 Open Scope Z_scope.
 
@@ -225,10 +226,17 @@ Theorem C19_static_length : forall N l, u32s_wf N l -> Some (length (u32s_encode
 Proof. exact encode_length. Qed.
 Print Assumptions C19_static_length.
 
-(* decoding is total (never `Pan`), strict and exact: it succeeds iff there are exactly N elements, all <= u32::MAX *)
-Theorem C19_decode : forall N s, Forall (fun w => 0 <= bfe_value w) s ->
+(* decoding is total (never `Pan`), strict and exact: for any sequence of u64 words it succeeds iff there are exactly
+   N elements whose values are all <= u32::MAX, and then returns those values *)
+Theorem C19_decode : forall N s, Forall (fun w => 0 <= w < 2 ^ 64) s ->
   if (length s =? N)%nat && forallb (fun w => bfe_value w <=? U32_MAX) s
   then u32s_decode N s = Done (map bfe_value s) /\ u32s_wf N (map bfe_value s)
   else u32s_decode N s = Rej.
-Proof. exact decode_spec. Qed.
+Proof. exact decode_spec_u64. Qed.
 Print Assumptions C19_decode.
+
+(* the encoding is unique: a sequence of canonical field elements that decodes to l is the encoding of l *)
+Theorem C19_decode_unique : forall N s l,
+  Forall BFieldProofs.canon s -> u32s_decode N s = Done l -> s = u32s_encode l.
+Proof. exact decode_unique. Qed.
+Print Assumptions C19_decode_unique.
